@@ -150,9 +150,9 @@ func Assert(label string, c bool) {
 	}
 }
 
-func Reach(label string) { Reached = append(Reached, label) }
+func Reach(label string)       { Reached = append(Reached, label) }
 func Tag(label string, c bool) {}
-func Note(text string)        {}
+func Note(text string)         {}
 
 // Try runs f and reports whether it panicked.
 func Try(f func()) (panicked bool) {
